@@ -3,6 +3,7 @@
 SUF=$1; OFF=$2
 for f in /verif/logs/round$SUF/*.log; do
   b=$(basename $f .log); id=${b%-*}; n=${b#*-}
+  [ -n "$ONLY" ] && ! echo " $ONLY " | grep -q " $id " && continue
   d=/tmp/seed/${id}$SUF/_seed/$n
   [ -d /verif/seeded/$id-$((n+OFF)) ] && continue   # kept already (its meta.json may carry notes)
   ok=1
